@@ -2,6 +2,10 @@ import FpVerif.Model.Eval
 import FpVerif.Model.Memo
 /-!
 # C16 — lazy.Eval: trampolined evaluation is faithful, (structurally) stack-safe and run-once
+
+Companions: `Spec/C16Logged.lean` (faithfulness when `FlatMap` / `TailCall` continuations log:
+`faithful_logged`), `Spec/C16PanicEval.lean` (panics), `Spec/C16Panic.lean` (run-once under every
+schedule, any number of calls per goroutine, panicking function), `Spec/C16Stack.lean` (stack).
 -/
 namespace FpVerif.Spec.C16
 open FpVerif FpVerif.EvalM
@@ -78,7 +82,16 @@ def strict : Prog T → W T
   | .map2 p q f =>
     let (v1, l1) := strict p; let (v2, l2) := strict q; let (w, l3) := f v1 v2; (w, l1 ++ (l2 ++ l3))
 
-/-- Faithfulness: for every program tree, trampolined evaluation = strict evaluation. -/
+/-- Faithfulness: for every program tree, trampolined evaluation = strict evaluation.
+
+    SCOPE (audit finding 17).  In `Prog` only leaves (`call`) and the functions of `map` / `map2` log;
+    the CONTINUATION of `flatMap` and the thunk of `tailCall` are pure functions returning a
+    program.  The statement for continuations that have side effects of their own is
+    `faithful_logged` in `Spec/C16Logged.lean` (program type `LProg` = `Prog` + `logged`; this theorem
+    is re-derived there as the corollary `faithful_of_logged`; `Prog` itself is matched on by the tie
+    module `Spec/C16Gen.lean` and therefore left as it is).  Panicking thunks / continuations:
+    `Spec/C16PanicEval.lean`.  Sharing of one memoised node and concurrent `Get`s:
+    `Spec/C16Panic.lean`.  Machine stack: `Spec/C16Stack.lean`. -/
 theorem faithful (p : Prog T) : run (denote p) = strict p := by
   induction p with
   | done t => rfl
@@ -274,7 +287,19 @@ theorem inv_step (v : T) (s : Memo.Sys T) (i : Nat) (h : MemoInv v s) : MemoInv 
         · subst he; cases hr'; exact ⟨rfl, rfl⟩
 
 /-- For EVERY number of threads and EVERY interleaving of their steps: the deferred function is executed
-    at most once, and every `Get` that has returned returned the value it computed. -/
+    at most once, and every `Get` that has returned returned the value it computed.
+
+    SCOPE (audit finding 17).  This is the small model (`Model/Memo.lean`): ONE `Get` per thread and a
+    deferred function that is a pure value `v` (it neither logs nor panics).  The general statement —
+    any number of goroutines, ANY NUMBER OF CALLS PER GOROUTINE (`progs : List Nat`), a function that
+    may panic or behave differently per execution (`out : Nat → Out T`), every interleaving of the
+    atomic steps of `sync.Once` (fast path, mutex, slow path, `defer`) — is proved in
+    `Spec/C16Panic.lean`: `once_runs_le_one` (at most one execution), `once_answered_after_f`,
+    `once_returns_agree` (all returned values agree), `once_panic_at_most_one` /
+    `once_panic_is_runners` / `once_zero_after_panic` (the panic clause), `once_accounting`,
+    `once_quiescent_all_answered`, `once_fair_quiescent` / `once_roundRobin_quiescent` (progress) and
+    `once_complete`; sequential requests with effects: `getN_fresh`, `getN_panicking`,
+    `getN_returning`.  Cite those, not this theorem, for the property's "at most once" clause. -/
 theorem once_all_schedules (v : T) (n : Nat) (sched : List Nat) :
     let s := Memo.runSched v (Memo.init n) sched
     s.runs ≤ 1 ∧ ∀ t ∈ s.threads, ∀ r, t = Memo.TState.returned r → r = v := by
